@@ -1267,13 +1267,11 @@ class LangServer:
                 {"uri": uri, "diagnostics": diag_results},
             )
         elif diag_exp is not None:
-            self.conn.write_error(
-                -1,
-                code=-32603,
-                message=str(diag_exp),
-                data={
-                    "traceback": traceback.format_exc(),
-                },
+            # Diagnostics are computed while handling notifications, which
+            # must never be answered with a response: report to the user
+            self.post_message(
+                f"Diagnostics failed for '{path_from_uri(uri)}': {diag_exp}",
+                Severity.error,
             )
 
     def get_diagnostics(self, uri: str):
